@@ -341,6 +341,41 @@ def theorems_of(path):
     return out
 
 
+def theorem_statements(path):
+    """name -> sha1 of the statement text (from `Theorem name` up to the first `Proof`), white space normalised."""
+    try:
+        txt = open(path).read()
+    except OSError:
+        return {}
+    out = {}
+    for m in re.finditer(r"^[ \t]*(Theorem|Lemma|Corollary)\s+([\w']+)(.*?)^[ \t]*Proof\b", txt, re.S | re.M):
+        out[m.group(2)] = hashlib.sha1(" ".join(m.group(3).split()).encode()).hexdigest()[:16]
+    return out
+
+
+THEOREM_PINS = os.path.join(VERIF, "pins", "theorems.json")
+
+
+def pinned_theorem_failures(pid, files):
+    """The statements of the property theorems are pinned (pins/theorems.json, written by tools/repin.py after
+    review): a pinned theorem that disappeared from its property file, or whose statement text changed, is a broken
+    obligation - the property files cannot be weakened quietly.  New theorems are always welcome."""
+    try:
+        pins = json.load(open(THEOREM_PINS)).get(pid, {})
+    except (OSError, ValueError):
+        return []
+    now = {}
+    for f in files:
+        now.update(theorem_statements(f))
+    bad = []
+    for name, h in pins.items():
+        if name not in now:
+            bad.append("pinned theorem %s is no longer in the property files of %s" % (name, pid))
+        elif now[name] != h:
+            bad.append("statement of pinned theorem %s changed (pins/theorems.json; repin after review)" % name)
+    return bad
+
+
 def forbidden_scan(groups):
     """Scan the .v sources of the groups for constructs that declare axioms or switch
     off kernel checks.  Variable/Hypothesis are allowed inside a Section only."""
